@@ -614,6 +614,28 @@ func main() {
 			os.Exit(2)
 		}
 	}
+	// contracts on declarations
+	e.unit = ""
+	for _, sc := range e.spec.Statics {
+		if !e.wantTags(sc.Cl.Tags) {
+			continue
+		}
+		pkg := e.rootPkg
+		for _, p := range e.repoPkgs {
+			if sub := strings.TrimPrefix(p.Path(), modPath+"/"); sub != p.Path() && strings.HasPrefix(sc.File, sub+"/") {
+				pkg = p
+			}
+		}
+		st := e.newState()
+		e.unit = "declarations"
+		g, err := e.EvalBool(&Env{e: e, st: st, pkg: pkg}, sc.Cl.E)
+		if err != nil {
+			missing = append(missing, fmt.Sprintf("contract-target-missing: static %s: %v", sc.Cl.Label, err))
+		} else {
+			e.oblige(st, "decl", sc.Cl.Label, g, sc.Cl.Tags, token.NoPos)
+		}
+		e.unit = ""
+	}
 	// module-wide rules of a swept property are also checked in every other function of the module
 	if pd := e.spec.Properties[prop]; pd != nil && pd.Sweep && *flagUnit == "" {
 		listed := map[string]bool{}
